@@ -11,7 +11,9 @@ Record c05_case := {
   k_z     : tree;                      (* destination root fiber *)
   k_a     : tree;                      (* source root fiber *)
   k_U     : list bool;                 (* a's ranks declared uncompressed *)
-  k_shape : list Z;                    (* rank shapes (both tensors) *)
+  k_shape : list Z;                    (* declared rank shapes (z: these + 2; a: these unless k_est) *)
+  k_est   : bool;                      (* a is built without a declared shape: its rank shapes are
+                                          estimated from what it stores *)
   k_body  : list (list Z * act)        (* what the body does with the reference offered at a path;
                                           paths not listed: left alone *)
 }.
@@ -27,8 +29,24 @@ Definition is_ref (a : act) : bool := match a with ARefBelow _ _ => true | _ => 
 Definition rb_of (l : list (list Z * act)) : list Z -> bool :=
   fun p => existsb (fun pa => is_ref (snd pa) && is_prefix p (fst pa)) l.
 
+(* the shape of a rank of a tensor whose shape is derived from its content (Rank.append, rank.py
+   442-456, over Fiber.estimateShape): 1 + the largest coordinate stored in any fiber of the
+   rank, 0 if none *)
+Fixpoint level_coords (k : nat) (t : tree) : list Z :=
+  match t with
+  | Leaf _ => []
+  | Node es => match k with
+               | O => map fst es
+               | S k' => flat_map (fun ct => level_coords k' (snd ct)) es
+               end
+  end.
+
+Definition est_shape (k : nat) (t : tree) : Z :=
+  fold_right Z.max 0 (map (fun c => c + 1) (level_coords k t)).
+
 Definition k_sp (c : c05_case) : srcp :=
-  {| sp_d := k_da c; sp_U := k_U c; sp_shape := k_shape c |}.
+  {| sp_d := k_da c; sp_U := k_U c;
+     sp_shape := if k_est c then map (fun k => est_shape k (k_a c)) (seq 0 (k_n c)) else k_shape c |}.
 
 (* ---------- the model's observation ---------- *)
 (* [a before; z before; events; z after; a after];
@@ -277,7 +295,7 @@ Definition c05_raw_ok (c : c05_case) (o : oobs) : bool :=
 (* the populated fiber of z has taken a's active range: (0, shape of a's rank) *)
 Definition c05_active_ok (c : c05_case) (o : oobs) : bool :=
   forallb (fun e => (fst (oe_act e) =? 0)
-                    && (snd (oe_act e) =? nth (pred (length (oe_path e))) (k_shape c) 0))
+                    && (snd (oe_act e) =? shape_at (k_sp c) (pred (length (oe_path e)))))
           (oo_evs o).
 
 Definition c05_wf_ok (c : c05_case) (o : oobs) : bool :=
